@@ -11,7 +11,7 @@ import engine_pan as pan
 PROPS = {
     "C02": {
         "controls": ["PAN-1", "PAN-3", "ERR-1"],
-        "rules": [("PAN-1", pan.pan1), ("PAN-2", pan.pan2), ("PAN-3", pan.pan3), ("PAN-4", pan.pan4), ("ERR-1", err.err1)],
+        "rules": [("PAN-1", pan.pan1), ("PAN-2", pan.pan2), ("PAN-3", pan.pan3), ("PAN-4", pan.pan4), ("PAN-5", pan.pan5), ("ERR-1", err.err1)],
         "explanation": "Decides four panic mechanisms whose presence is visible in the shape of the code (each a necessary condition of C02), not termination or "
                        "value-dependent panics. PAN-1: forward liveness of every RefCell guard on MIR plus interprocedural borrow summaries (cells = SubRule fields / "
                        "&RefCell parameters mapped through call sites): no borrow, and no call that may borrow, of a cell while a conflicting guard on it is live. "
@@ -19,8 +19,8 @@ PROPS = {
                        "producer table). PAN-3/PAN-4: a may-analysis of the parsers' HIR gives, per container (Input, Output, Env, Set, Structure, Optional; "
                        "(de)romaniser sides), the element kinds the grammar can put there; a tag analysis of the interpreter gives the containers whose elements reach "
                        "each match with an unreachable!/unimplemented! arm; the intersection must be empty (EmptySet/Metathesis discharged by four checked rule-type "
-                       "conditions). ERR-1: no formatter call resolves to an unreachable!() stub.",
-        "does_not_decide": "termination (e.g. `$ > $` spins); index / slice / arithmetic / Option::unwrap panics that depend on cursor values (e.g. `r...l > l r r`); stack depth of the recursive matcher.",
+                       "conditions). PAN-5: the cursor written back to the scan loop through next_pos is dominated by SegPos::increment on that cursor (deletion and substitution). ERR-1: no formatter call resolves to an unreachable!() stub.",
+        "does_not_decide": "termination in general (e.g. `$ > $` spins although the cursor is advanced); index / slice / arithmetic / Option::unwrap panics that depend on cursor values (e.g. `r...l > l r r`); stack depth of the recursive matcher.",
         "assumptions": ["all SubRule methods are invoked on the same SubRule object (cells named by field)"],
     },
     "C08": {
@@ -144,18 +144,18 @@ PROPS = {
         "assumptions": ["formatters keep binding the raw payload fields under the names group/line/kind"],
     },
     "C12": {
-        "rules": [("TAB-4", tab2.tab4)],
-        "explanation": "Decides the group-letter clause of C12 only: the letter -> matrix table of Parser::group_to_matrix equals its "
+        "rules": [("TAB-4", tab2.tab4), ("SHR-1", tab2.shr1)],
+        "explanation": "Decides two table/shape clauses of C12. SHR-1: in Rule::split_into_subrules each of the four lists (input, output, context, except) is indexed under a length test of that same list (a singleton is shared, otherwise element i) — necessary for 'a condensed rule behaves as its sub-rules'. TAB-4: the letter -> matrix table of Parser::group_to_matrix equals its "
                        "sibling in AliasParser and the table in doc/doc.md § Groupings (feature names resolved through the lexer's own synonym table).",
-        "does_not_decide": "condensed rules, `_,X`, optionals and `&` expansions (equalities between two interpreter runs).",
+        "does_not_decide": "that the sub-rules behave as separate rules, `_,X` mirroring, optional bounds and `&` expansion (equalities between two interpreter runs).",
         "assumptions": ["doc/doc.md keeps its `X -> ... (equiv. to [..])` row layout"],
     },
     "C13": {
         "controls": ["SYN-1"],
-        "rules": [("TAB-5", tab2.tab5), ("TAB-6", tab2.tab6), ("SYN-1", tab2.syn1)],
+        "rules": [("TAB-5", tab2.tab5), ("TAB-6", tab2.tab6), ("TAB-6b", tab2.tab6b), ("SYN-1", tab2.syn1)],
         "explanation": "Decides the table and follow-set clauses of C13: the feature-name synonym tables of the two lexers are equal maps, without "
                        "duplicate or unreachable spellings and covering FEAT_VARIANTS; word-level respellings (Word::to_ipa, Word::new replace chains, "
-                       "lexer cur_as_ipa siblings, americanist inverse in render_normal, render marks ⊆ Word::setup tests) equal the manual's tables; "
+                       "lexer cur_as_ipa siblings, americanist inverse in render_normal, render marks ⊆ Word::setup tests) equal the manual's tables; every character of the word text that enters a grapheme lookup buffer in Word::fill_segments passes through Word::to_ipa (TAB-6b: the aliases apply at every position, also after `^`); "
                        "every documented symbol synonym either lexes to one token kind or its kinds are tested equally often in every parser function "
                        "(Pipe≍DubSlash, Star≍EmptySet, Arrow≍GreaterThan, Eol≍Comment at follow-set positions).",
         "does_not_decide": "spaces inside matrices, alpha-letter / variable-number renaming, doubled segment ≍ length mark (semantic).",
